@@ -4,7 +4,9 @@
     for the weighted draw ([oracle_guard]: the sampled position is below the number
     of unfinished sources, which is what rand guarantees). [srcs <> []]: the callers
     refuse an empty file list. *)
-From TU Require Import Base C07_Model C07_Proofs C07_Specs C07_Top C07_Weighted.
+From TU Require Import Base C07_Model C07_Proofs C07_Specs C07_Top C07_Weighted C07_Seeded.
+From TU Require RNG_Model RNG_Proofs RNG_Props.
+Require Import Permutation.
 
 (** Termination, every strategy, every oracle in range: the fuel
     (sum of lengths + number of sources + 1 pulls) is never exhausted, no assertion or
@@ -104,6 +106,101 @@ Theorem check_sound : forall v out, check_C07 v out = true -> shape_ctor_err out
 Proof. exact check_sound_l. Qed.
 Print Assumptions check_sound.
 
+(** ** The weighted strategy computed from the seed (RNG_Model: ChaCha8 + seed_from_u64 + WeightedIndex
+    inside the model).  [run_gen_seeded seed srcs] threads the generator state through the drain and
+    samples the next source exactly as [next_idx] does (weights = initial lengths of the unfinished
+    sources).  [None] = the rejection loop of the uniform sampler ran out of its 64 units of fuel
+    (depends on the stream; never observed).  [total_len srcs < 2^64]: the sum of the line counts is a usize. *)
+
+(** the run from the seed IS a run of the oracle model, under an oracle that is in range:
+    [oracle_guard] is no longer a premise, it is proved of the induced oracle *)
+Theorem gen_seeded_oracle : forall (A : Type) (seed : N) (srcs : list (list A)) r,
+  (N.of_nat (total_len srcs) < 2 ^ 64)%N -> run_gen_seeded seed srcs = Some r ->
+  exists o, oracle_guard o /\ run_gen Weighted o srcs = r.
+Proof. intros A. exact seeded_oracle_l. Qed.
+Print Assumptions gen_seeded_oracle.
+
+(** [gen_total] without the oracle premise *)
+Theorem gen_total_seeded : forall (A : Type) (seed : N) (srcs : list (list A)) r,
+  srcs <> [] -> existsb is_nil srcs = false -> (N.of_nat (total_len srcs) < 2 ^ 64)%N ->
+  run_gen_seeded seed srcs = Some r -> exists out, r = Ok out.
+Proof. intros A. exact gen_total_seeded_l. Qed.
+Print Assumptions gen_total_seeded.
+
+(** [gen_items] for the seeded run (plus: the first item comes from source 0) *)
+Theorem gen_items_seeded : forall (A : Type) (seed : N) (srcs : list (list A)) out,
+  srcs <> [] -> (N.of_nat (total_len srcs) < 2 ^ 64)%N ->
+  run_gen_seeded seed srcs = Some (Ok out) ->
+  (forall j, proj j out = nth j srcs []) /\ length out = total_len srcs /\
+  Forall (fun p => fst p < length srcs) out /\ first_tag0 out = true.
+Proof. intros A. exact gen_items_seeded_l. Qed.
+Print Assumptions gen_items_seeded.
+
+(** the constructor's refusal is the same *)
+Theorem gen_ctor_seeded : forall (A : Type) (seed : N) (srcs : list (list A)),
+  existsb is_nil srcs = true -> run_gen_seeded seed srcs = Some (Err CtorErr).
+Proof. intros A. exact gen_ctor_seeded_l. Qed.
+Print Assumptions gen_ctor_seeded.
+
+(** the executable statement holds of the second model line (the one the correspondence compares exactly) *)
+Theorem check_run_seeded : forall v, v_srcs v <> [] -> is_rng_case v = false ->
+  (v_strategy (v_nth 0 v) = Weighted ->
+   (N.of_nat (total_len (v_srcs v)) < 2 ^ 64)%N /\ run_gen_seeded (v_n (v_nth 1 v)) (v_srcs v) <> None) ->
+  check_C07s v (run_C07s v) = true.
+Proof. exact check_run_seeded_l. Qed.
+Print Assumptions check_run_seeded.
+
+(** ** The facts about the modelled generator these corollaries rest on (RNG_Props.v has the full list;
+    re-pinned here so that every run of this check audits them) *)
+Theorem rng_seed_wf : forall seed, RNG_Proofs.wf (RNG_Model.seed_from_u64 seed).
+Proof. exact RNG_Props.seed_wf. Qed.
+Print Assumptions rng_seed_wf.
+
+Theorem rng_next_u32_range : forall st x st', RNG_Proofs.wf st -> RNG_Model.next_u32 st = (x, st') ->
+  (x < 2 ^ 32)%N /\ RNG_Proofs.wf st'.
+Proof. exact RNG_Props.next_u32_range. Qed.
+Print Assumptions rng_next_u32_range.
+
+Theorem rng_next_u64_range : forall st x st', RNG_Proofs.wf st -> RNG_Model.next_u64 st = (x, st') ->
+  (x < 2 ^ 64)%N /\ RNG_Proofs.wf st'.
+Proof. exact RNG_Props.next_u64_range. Qed.
+Print Assumptions rng_next_u64_range.
+
+Theorem rng_random_f64_range : forall st k st', RNG_Proofs.wf st -> RNG_Model.random_f64 st = (k, st') ->
+  (k < 2 ^ 53)%N /\ RNG_Proofs.wf st'.
+Proof. exact RNG_Props.random_f64_range. Qed.
+Print Assumptions rng_random_f64_range.
+
+Theorem rng_random_range_lt : forall n st i st', RNG_Proofs.wf st ->
+  RNG_Model.random_range n st = Some (i, st') -> (i < n)%N /\ RNG_Proofs.wf st'.
+Proof. exact RNG_Props.random_range_lt. Qed.
+Print Assumptions rng_random_range_lt.
+
+Theorem rng_uniform_usize_lt : forall fuel total st x st', RNG_Proofs.wf st -> (0 < total)%N -> (total < 2 ^ 64)%N ->
+  RNG_Model.uniform_usize fuel total st = Some (x, st') -> (x < total)%N /\ RNG_Proofs.wf st'.
+Proof. exact RNG_Props.uniform_usize_lt. Qed.
+Print Assumptions rng_uniform_usize_lt.
+
+Theorem rng_shuffle_perm : forall (A : Type) (l : list A) st, Permutation (fst (RNG_Model.shuffle l st)) l.
+Proof. exact RNG_Props.shuffle_perm. Qed.
+Print Assumptions rng_shuffle_perm.
+
+Theorem rng_shuffle_in_bounds : forall len st, RNG_Proofs.wf st -> (N.of_nat len < 2 ^ 64)%N ->
+  RNG_Proofs.swaps_in_bounds len 0 (fst (RNG_Model.shuffle_indices len st)).
+Proof. exact RNG_Props.shuffle_in_bounds. Qed.
+Print Assumptions rng_shuffle_in_bounds.
+
+Theorem rng_weighted_sample_in_range : forall fuel ws st i st', RNG_Proofs.wf st -> Forall (fun w => (w < 2 ^ 64)%N) ws ->
+  RNG_Model.weighted_sample_n fuel ws st = inr (Some (i, st')) ->
+  (i < length ws) /\ (0 < nth i ws 0)%N /\ RNG_Proofs.wf st'.
+Proof. exact RNG_Props.weighted_sample_in_range. Qed.
+Print Assumptions rng_weighted_sample_in_range.
+
+Theorem rng_weighted_sample_f_in_range : forall ws st i st', RNG_Proofs.wf st ->
+  RNG_Model.weighted_sample_f ws st = inr (i, st') -> (i < length ws) /\ RNG_Proofs.wf st'.
+Proof. exact RNG_Props.weighted_sample_f_in_range. Qed.
+Print Assumptions rng_weighted_sample_f_in_range.
+
 (** Non-vacuity: an oracle in range; concrete runs. *)
 Example oracle_guard_witness : oracle_guard (fun t m => t mod m).
 Proof. intros t m Hm. apply Nat.mod_upper_bound. intro E. rewrite E in Hm. inversion Hm. Qed.
@@ -112,4 +209,13 @@ Example interleaved_1_3 : run_gen Interleaved (fun _ _ => 0) [[10]; [20; 21; 22]
 Proof. vm_compute. reflexivity. Qed.
 Example weighted_run : run_gen Weighted (fun t m => t mod m) [[1; 5; 6]; [2; 3; 4; 7; 8]; [9]]
   = Ok [(0, 1); (0, 5); (1, 2); (2, 9); (0, 6); (1, 3); (1, 4); (1, 7); (1, 8)].
+Proof. vm_compute. reflexivity. Qed.
+
+(** the seeded model on lengths [3;5;1]: these two streams are what the REAL MultiTrainDataGenerator
+    (weighted, seeds 0 and 22) yields for three jsonl files of 3, 5 and 1 lines *)
+Example seeded_run_0 : run_gen_seeded 0 [[0; 1; 2]; [1000; 1001; 1002; 1003; 1004]; [2000]]
+  = Some (Ok [(0, 0); (1, 1000); (1, 1001); (1, 1002); (1, 1003); (1, 1004); (0, 1); (0, 2); (2, 2000)]).
+Proof. vm_compute. reflexivity. Qed.
+Example seeded_run_22 : run_gen_seeded 22 [[0; 1; 2]; [1000; 1001; 1002; 1003; 1004]; [2000]]
+  = Some (Ok [(0, 0); (1, 1000); (1, 1001); (1, 1002); (0, 1); (1, 1003); (1, 1004); (0, 2); (2, 2000)]).
 Proof. vm_compute. reflexivity. Qed.
